@@ -46,7 +46,14 @@ def response_pdu(r, fc=None):
     fc = fc if fc is not None else r.choice(FCS)
     kind = r.random()
     if kind < 0.15:
-        return [fc | 0x80, r.choice([1, 2, 3, 4, 5, 6, 8, 10, 11, 0, 7, 255])]
+        ex = [fc | 0x80, r.choice([1, 2, 3, 4, 5, 6, 8, 10, 11, 0, 7, 255])]
+        # a third of the exception responses are malformed: trailing bytes after the code, or the code missing
+        k = r.random()
+        if k < 0.25:
+            ex += [r.randrange(0, 256) for _ in range(r.choice([1, 1, 2, 5]))]
+        elif k < 0.33:
+            ex = ex[:1]
+        return ex
     if fc in (1, 2):
         n = r.choice([1, 2, 5, 250])
         return [fc, n] + [r.randrange(0, 256) for _ in range(n)]
